@@ -59,6 +59,7 @@ type scripted struct {
 	rebuild             bool
 	sorted              bool
 	errs                []string
+	emptyKey            int // the stored key holding an empty value (0: none): Clean cannot tell the key from the value
 }
 
 func (s *scripted) checkLast() {
@@ -101,6 +102,15 @@ func (s *scripted) Merge(oldval []byte) ([]byte, error) {
 }
 
 func (s *scripted) Clean(oldval []byte) ([]byte, error) {
+	if len(oldval) == 0 && s.emptyKey != 0 {
+		switch s.dec[s.emptyKey-1] {
+		case "keep":
+			return oldval, nil
+		case "replace":
+			return []byte{'r', byte('0' + s.emptyKey)}, nil
+		}
+		return nil, nil
+	}
 	if len(oldval) != 2 {
 		s.errs = append(s.errs, fmt.Sprintf("Clean called with %q", oldval))
 		return oldval, nil
@@ -127,7 +137,7 @@ func (s *scripted) Clean(oldval []byte) ([]byte, error) {
 
 func absVal(b []byte) int {
 	if len(b) == 0 {
-		return -2 // an entry with an empty value: never what a strategy leaves (an empty merge result means "no entry")
+		return 4 // an entry with an empty value (the specification's value 4)
 	}
 	switch b[0] {
 	case 's':
@@ -191,15 +201,21 @@ func cmdC19(args []string) error {
 			var got []int
 			var runErr error
 			var itErrs []string
+			emptyKey := 0
 			err := env.Update(func(txn *lmdb.Txn) error {
 				for k := 1; k <= len(row.Stored); k++ {
-					if row.Stored[k-1] != 0 {
+					if row.Stored[k-1] == 4 { // stored with an empty value
+						if e := txn.Put(dbi, kc.Keys[k-1], []byte{}, 0); e != nil {
+							return e
+						}
+						emptyKey = k
+					} else if row.Stored[k-1] != 0 {
 						if e := txn.Put(dbi, kc.Keys[k-1], []byte{'s', byte('0' + k)}, 0); e != nil {
 							return e
 						}
 					}
 				}
-				it := &scripted{kc: kc, input: row.Input, dec: row.Dec, txn: txn, dbi: dbi,
+				it := &scripted{kc: kc, input: row.Input, dec: row.Dec, txn: txn, dbi: dbi, emptyKey: emptyKey,
 					rebuild: row.Strat == "EmptyPut", sorted: row.Result == "ok"}
 				switch row.Strat {
 				case "Update":
